@@ -148,12 +148,20 @@ func (e *Engine) callFn(st *State, fr *Frame, fn *ssa.Function, bind []Value, ar
 	if e.GhostAcc[fn] {
 		t := e.ufApp(st, "ghost$"+name, fn.Signature.Results(), args).(*smt.Term)
 		if len(args) == 1 {
-			if a, ok := args[0].(*smt.Term); ok {
+			var a *smt.Term
+			switch x := args[0].(type) {
+			case *smt.Term:
+				a = x
+			case *IfaceV:
+				a = e.materialize(st, x)
+			}
+			if a != nil {
 				key := "ghost$" + name
-				if !st.Known[t] {
-					st.Known[t] = true
+				if !st.Marked[t] {
+					st.Marked[t] = true
 					st.Assume(e.C.Eq(e.C.App(key+"_inv", a.Sort, t), a))
 					st.Assume(e.C.Not(e.C.Eq(t, e.i64(0))))
+					st.Assume(e.C.Eq(e.C.App("ghost_kind", smt.BV64, t), e.kindConst(key)))
 				}
 			}
 		}
@@ -224,7 +232,33 @@ func (e *Engine) intrinsic(st *State, fr *Frame, name string, fn *ssa.Function, 
 			return &intrRes{c.Forall([]*smt.Term{bv}, c.Implies(rng, body))}, true
 		}
 		return &intrRes{c.Exists([]*smt.Term{bv}, c.And(rng, body))}, true
-	case "gvcMod", "gvcModAll", "gvcModElems", "gvcModMap":
+	case "errIsCE":
+		return &intrRes{e.errIsCE(st, e.asTerm(st, args[0], nil))}, true
+	case "errCECode":
+		return &intrRes{e.errCECode(e.asTerm(st, args[0], nil))}, true
+	case "errCEReason":
+		return &intrRes{e.errCEReason(e.asTerm(st, args[0], nil))}, true
+	case "errIs":
+		return &intrRes{e.errIs(st, e.asTerm(st, args[0], nil), e.asTerm(st, args[1], nil))}, true
+	case "gvcDistinct7":
+		var ts []*smt.Term
+		for _, a := range args {
+			ts = append(ts, e.chanTermOf(st, a))
+		}
+		var cs []*smt.Term
+		for i := range ts {
+			for j := i + 1; j < len(ts); j++ {
+				cs = append(cs, c.Not(c.Eq(ts[i], ts[j])))
+			}
+		}
+		return &intrRes{c.And(cs...)}, true
+	case "gvcClosed":
+		return &intrRes{c.Select(e.chClosed(e.rd(st)), e.chanTermOf(st, args[0]))}, true
+	case "gvcHeld":
+		return &intrRes{c.Select(e.chMine(e.rd(st)), e.chanTermOf(st, args[0]))}, true
+	case "gvcArmed":
+		return &intrRes{c.Select(e.chLastSent(e.rd(st)), e.chanTermOf(st, args[0]))}, true
+	case "gvcMod", "gvcModAll", "gvcModElems", "gvcModMap", "gvcModChan":
 		e.applyMod(st, name, args[0])
 		return &intrRes{nil}, true
 	case "gvcFresh":
@@ -520,6 +554,10 @@ func (e *Engine) applyMod(st *State, kind string, arg Value) {
 		for _, l := range e.leafKeys(elemKey(s.Elem), s.Elem) {
 			havocRegion(l.Path, l.Sort, s.Region)
 		}
+	case "gvcModChan":
+		ch := e.chanTermOf(st, arg)
+		havocHeap("chan.mine", smt.Bool, ch)
+		havocHeap("chan.lastsent", smt.BV64, ch)
 	case "gvcModMap":
 		m := arg.(*smt.Term)
 		for _, key := range sortedKeys(st.Heap) {
@@ -564,7 +602,16 @@ func (e *Engine) runModFn(st *State, fr *Frame, cf *ClauseFn, env clauseEnv, col
 		rec = &modSet{heap: map[string][]*smt.Term{}, mem: map[string][]*smt.Term{}}
 	}
 	frozen.ModCollect = rec
-	e.exec(nf, cf.Fn.Blocks[0], 0, frozen, func(*State, []Value) {})
+	base := len(frozen.PC)
+	e.exec(nf, cf.Fn.Blocks[0], 0, frozen, func(s2 *State, _ []Value) {
+		// axiom instances created while evaluating the locations (ghost accessors,
+		// region injectivity) are facts of the caller's state as well
+		for i := base; i < len(s2.PC); i++ {
+			if !s2.IsBranch[i] && !s2.PC[i].HasBound() {
+				st.Assume(s2.PC[i])
+			}
+		}
+	})
 	if collect != nil {
 		return
 	}
@@ -686,9 +733,9 @@ func (e *Engine) applyContract(st *State, fr *Frame, fc *FnContract, args []Valu
 		return results
 	}
 	pre := st.Clone()
-	if checks || true {
-		e.evalModifies(st, fr, fc, nargs, nil)
-	}
+	e.evalModifies(st, fr, fc, nargs, nil)
+	// the environment may have closed channels while the callee ran
+	e.envStepAll(st)
 	for i, rt := range fc.RTypes {
 		results = append(results, e.freshOfType(st, rt, fmt.Sprintf("ret$%s$%s", fc.Key, fc.RNames[i])))
 	}
